@@ -186,7 +186,7 @@ func cmdCheck(args []string) int {
 				keep = true
 			}
 		}
-		if keep || len(fc.errs) > 0 && cone[p.fn] {
+		if keep || len(fc.errs) > 0 && (cone[p.fn] || framesProp) {
 			fcs = append(fcs, fc)
 		}
 	}
